@@ -6,6 +6,7 @@ import z3
 from . import api, strops
 from .state import ExcInfo, Place
 from .symex import Entity, normal
+from .types import snth, sunit
 from .types import (TBool, TFun, TInt, TMap, TNone, TOpaque, TOpt, TRef, TSeq, TStr,
                     TTuple, TUnion, join, parse_type)
 from .values import (NONE, SV, OutsideSubset, TBottom, TypeMismatch, box, coerce, empty_map,
@@ -61,8 +62,26 @@ class CallMixin:
                 if not normal(s3):
                     out.append((s3, None))
                     continue
+                self.ghost_asserts_at_call(s3, e, args)
                 out.extend(self.call_value(s3, fn, args, kw, e))
         return out
+
+    def ghost_asserts_at_call(self, st, e, args, target=None):
+        c = self.contract
+        if c is None or not c.asserts or self.spec_depth > 0 or self.in_contract or self.inline_depth > 0:
+            return
+        try:
+            target = target or ast.unparse(e.func)
+        except Exception:
+            return
+        for a in c.asserts:
+            if a.call is not None and a.call == target:
+                self.asserts_seen.add(id(a))
+                vals = [self.need_value(x) for x in args if not isinstance(x, Entity)]
+                tup = SV(TTuple([v.ty for v in vals]), tuple(vals))
+                t = self.eval_contract_expr(st, a.expr, {'args': tup}, self.pre_state)
+                self.oblige(st, t, 'assert', a.label, carries=a.carries, node=e,
+                            info={'claim': 'at call of %s: %s' % (target, a.expr)})
 
     def eval_args(self, st, e):
         """-> list of (state, [positional SVs], {kw: SV})"""
@@ -363,8 +382,9 @@ class CallMixin:
         if isinstance(obj.ty, TRef):
             dcls, fty = self.classes.field(obj.ty.cls, attr)
             if dcls is not None:
-                v = self.read_field(st, obj, obj.ty.cls, attr, node)
                 present = self.field_presence(st, obj, attr)
+                arr_v = self.heap_array(st, (dcls, attr), fty)
+                v = unbox(fty, z3.Select(arr_v, obj.t))
                 if len(args) == 3 and present is not None:
                     return [(st, merge(present, v, args[2], self.classes))]
                 return [(st, v)]
@@ -373,6 +393,13 @@ class CallMixin:
         raise OutsideSubset('getattr(%s, %r)' % (obj.ty, attr))
 
     def field_presence(self, st, obj, attr):
+        dcls, _ = self.classes.field(obj.ty.cls, attr)
+        m = api.MODELS.get(dcls)
+        if m is not None and attr in m.optional:
+            return self.read_field(st, obj, obj.ty.cls, m.optional[attr]).t
+        return None
+
+    def field_presence_old(self, st, obj, attr):
         """z3 Bool: the attribute exists on the object (class-dependent), or None when always."""
         owners = []
         for q in self.classes.subclasses(obj.ty.cls):
@@ -420,6 +447,7 @@ class CallMixin:
                     if not normal(s4):
                         out.append((s4, None))
                         continue
+                    self.ghost_asserts_at_call(s4, call, args, target='self.' + n)
                     out.extend(self.call_method(s4, obj, n, args, kw, call))
         return out
 
@@ -543,7 +571,19 @@ class CallMixin:
         if name == 'upper':
             return [(st, SV(TStr, strops.upper(t)))]
         if name in ('strip', 'rstrip', 'lstrip') and not args:
-            return [(st, SV(TStr, getattr(strops, name)(t)))]
+            r = getattr(strops, name)(t)
+            nl = z3.StringVal('\n')
+            # facts about stripping (assumed str semantics, cross-checked natively in the self-test)
+            st.fact(z3.Contains(t, r))
+            st.fact(getattr(strops, name)(r) == r)
+            st.fact(z3.Implies(z3.Length(t) == 0, z3.Length(r) == 0))
+            if name in ('strip', 'rstrip'):
+                st.fact(z3.Implies(z3.Not(z3.Contains(z3.SubString(t, 0, z3.Length(t) - 1), nl)),
+                                   z3.Not(z3.Contains(r, nl))))
+            if name == 'strip':
+                st.fact(strops.rstrip(r) == r)
+                st.fact(strops.lstrip(r) == r)
+            return [(st, SV(TStr, r))]
         if name == 'find':
             return [(st, SV(TInt, strops.find(t, args[0].t, args[1].t if len(args) > 1 else None)))]
         if name == 'startswith':
@@ -656,7 +696,7 @@ class CallMixin:
                     raise
                 cont = coerce_seq(cont, TSeq(j), self.classes)
                 e = box(coerce(x, j, self.classes))
-            self.write_place(st, pl, SV(cont.ty, z3.Concat(cont.t, z3.Unit(e))), node)
+            self.write_place(st, pl, SV(cont.ty, z3.Concat(cont.t, sunit(cont.ty.elem, e))), node)
             return [(st, NONE)]
         if op == 'extend':
             x = args[0]
@@ -675,7 +715,7 @@ class CallMixin:
             n = z3.Length(cont.t)
             self.oblige(st, n > 0, 'safety', 'pop-empty', node=node,
                         info={'claim': 'pop from a non-empty list (IndexError)'})
-            last = unbox(cont.ty.elem, cont.t[n - 1])
+            last = unbox(cont.ty.elem, snth(cont.ty.elem, cont.t, n - 1))
             self.assume_ref_closed(st, last)
             self.write_place(st, pl, SV(cont.ty, z3.SubSeq(cont.t, 0, n - 1)), node)
             return [(st, last)]
@@ -685,11 +725,11 @@ class CallMixin:
             n = z3.Length(cont.t)
             ii = strops.norm_index(i, n)
             e = box(coerce(args[1], cont.ty.elem, self.classes))
-            t = z3.Concat(z3.SubSeq(cont.t, 0, ii), z3.Unit(e), z3.SubSeq(cont.t, ii, n - ii))
+            t = z3.Concat(z3.SubSeq(cont.t, 0, ii), sunit(cont.ty.elem, e), z3.SubSeq(cont.t, ii, n - ii))
             self.write_place(st, pl, SV(cont.ty, t), node)
             return [(st, NONE)]
         if op == 'remove':
-            e = z3.Unit(box(coerce(args[0], cont.ty.elem, self.classes)))
+            e = sunit(cont.ty.elem, box(coerce(args[0], cont.ty.elem, self.classes)))
             self.oblige(st, z3.Contains(cont.t, e), 'safety', 'remove-missing', node=node,
                         info={'claim': 'list.remove(x): x is in the list (ValueError)'})
             i = z3.IndexOf(cont.t, e, 0)
@@ -717,7 +757,7 @@ class CallMixin:
             res = fresh(cont.ty, 'upd')
             ck, sk, rk = cont.ty.keys(cont.t), src.ty.keys(src.t), cont.ty.keys(res.t)
             k = z3.Const('upd_k', cont.ty.k.sort())
-            uk = z3.Unit(k)
+            uk = sunit(cont.ty.k, k)
             st.assume(z3.ForAll([k], z3.Contains(rk, uk) == z3.Or(z3.Contains(ck, uk), z3.Contains(sk, uk))))
             st.assume(z3.ForAll([k], z3.Select(cont.ty.vals(res.t), k) ==
                                 z3.If(z3.Contains(sk, uk), z3.Select(src.ty.vals(src.t), k),
@@ -828,7 +868,7 @@ class CallMixin:
         res = fresh(rty, 'comp')
         ok.assume(z3.Length(res.t) == src.length)
         ok.assume(z3.ForAll([i], z3.Implies(z3.And(i >= 0, i < src.length),
-                                             z3.And(at(ncond, i), res.t[i] == at(box(nval), i)))))
+                                             z3.And(at(ncond, i), snth(ety, res.t, i) == at(box(nval), i)))))
         for f in nst.facts:
             ok.fact(f) if not contains_const(f, k) else None
         ok.mark('comp-ok')
